@@ -58,6 +58,19 @@ Theorem c01_total :
 Proof. rewrite gen_print_guarded_true. exact metabolize_total_proof. Qed.
 Print Assumptions c01_total.
 
+(* ... and so does the legacy string API digest_glucose, whatever str() does *)
+Theorem c01_digest_glucose_total :
+  forall max_len T O reg allowed env str_outcome,
+    digest_glucose gen_str_guarded
+      (fst (metabolize gen_print_guarded max_len T O reg allowed env)) str_outcome <> MRaised.
+Proof.
+  intros. rewrite gen_str_guarded_true.
+  pose proof (c01_total max_len T O reg allowed env) as H.
+  destruct (fst (metabolize gen_print_guarded max_len T O reg allowed env)); simpl;
+    [destruct str_outcome; discriminate | discriminate | exact H].
+Qed.
+Print Assumptions c01_digest_glucose_total.
+
 (* (c) the walker itself takes at most one step per AST node *)
 Theorem c01_steps_bounded :
   forall T O e, (snd (snd (run_eval T O e)) <= size e)%nat.
